@@ -59,10 +59,8 @@ class FunctionNode(ConfigDict):
 
             return self
 
-        try:
-            new_func = (self._func != other._func)
-        except AttributeError:
-            new_func = False
+        # (not "other._func" guarded by AttributeError: a plain mapping answers attribute access with its children, also one called "_func")
+        new_func = isinstance(other, FunctionNode) and self._func != other._func
 
         if new_func:
             if not other.ayns.has_priority_over(self, if_equal=True):
